@@ -37,3 +37,95 @@ Definition inside_all_edges (P : list pt) (q : pt) : Prop :=
   forall e, In e (poly_edges P) -> 0 <= cross (fst e) (snd e) q.
 Definition strictly_inside_all_edges (P : list pt) (q : pt) : Prop :=
   forall e, In e (poly_edges P) -> 0 < cross (fst e) (snd e) q.
+
+(* ---------------------------------------------------------------------------------------------
+   C16 extension: segmentIntersectPoint / rayIntersectPoint / colinear / inBetween / ...        *)
+
+(* the closed segments a1a2 and b1b2 have a common point *)
+Definition segs_meet (a1 a2 b1 b2 : pt) : Prop :=
+  exists s t, 0 <= s /\ s <= 1 /\ 0 <= t /\ t <= 1 /\ pt_eq (lerp a1 a2 s) (lerp b1 b2 t).
+
+(* "f" of Antonio's algorithm: A x B with A = a2 - a1, B = b1 - b2; zero iff the directions are parallel
+   (or one of the segments has length zero) *)
+Definition sip_den (a1 a2 b1 b2 : pt) : Q :=
+  (py a2 - py a1) * (px b1 - px b2) - (px a2 - px a1) * (py b1 - py b2).
+
+(* p lies on the (infinite) line through a and b; for a = b this is the single point a *)
+Definition on_line (a b p : pt) : Prop := exists t, pt_eq p (lerp a b t).
+
+(* Meaning of a result (code, x', y') of segmentIntersectPoint called with out-parameters holding x, y. *)
+Definition segmentIntersectPoint_meaning (a1 a2 b1 b2 : pt) (x y : Q) (r : Z * Q * Q) : Prop :=
+  let code := fst (fst r) in let x' := snd (fst r) in let y' := snd r in
+  (code = 1%Z <-> ~ sip_den a1 a2 b1 b2 == 0 /\ segs_meet a1 a2 b1 b2) /\
+  (code = 3%Z <-> sip_den a1 a2 b1 b2 == 0 /\ segs_meet a1 a2 b1 b2) /\
+  (code = 0%Z \/ code = 1%Z \/ code = 3%Z) /\
+  (code = 1%Z -> on_closed_segment a1 a2 (mkpt x' y') /\ on_closed_segment b1 b2 (mkpt x' y') /\
+                 forall p, on_closed_segment a1 a2 p -> on_closed_segment b1 b2 p -> pt_eq p (mkpt x' y')) /\
+  (code <> 1%Z -> x' = x /\ y' = y).
+
+(* Meaning of a result of rayIntersectPoint (infinite lines, no range tests). *)
+Definition rayIntersectPoint_meaning (a1 a2 b1 b2 : pt) (x y : Q) (r : Z * Q * Q) : Prop :=
+  let code := fst (fst r) in let x' := snd (fst r) in let y' := snd r in
+  (code = 3%Z <-> sip_den a1 a2 b1 b2 == 0) /\
+  (code = 1%Z <-> ~ sip_den a1 a2 b1 b2 == 0) /\
+  (code = 1%Z \/ code = 3%Z) /\
+  (code = 1%Z -> on_line a1 a2 (mkpt x' y') /\ on_line b1 b2 (mkpt x' y') /\
+                 forall p, on_line a1 a2 p -> on_line b1 b2 p -> pt_eq p (mkpt x' y')) /\
+  (code <> 1%Z -> x' = x /\ y' = y).
+
+(* ---- colinear / inBetween / cornerSide / inValidRegion (C16 extension 3-4) *)
+(* a, b, c lie on a common line *)
+Definition collinear_pts (a b c : pt) : Prop := pt_eq a b \/ on_line a b c.
+
+(* std::numeric_limits<double>::epsilon() *)
+Definition dbl_epsilon : Q := 1 # 4503599627370496.
+
+(* cornerSide: for a left turn c1 c2 c3 the answer is 1 exactly on the closed wedge to the left of both edge lines,
+   for a right turn -1 exactly on the closed wedge to the right of both, for a straight corner the side of c1c2 *)
+Definition cornerSide_meaning (c1 c2 c3 p : pt) (r : Z) : Prop :=
+  (0 < cross c1 c2 c3 ->
+     (0 <= cross c1 c2 p /\ 0 <= cross c2 c3 p -> r = 1%Z) /\
+     (~ (0 <= cross c1 c2 p /\ 0 <= cross c2 c3 p) -> r = (-1)%Z)) /\
+  (cross c1 c2 c3 < 0 ->
+     (cross c1 c2 p <= 0 /\ cross c2 c3 p <= 0 -> r = (-1)%Z) /\
+     (~ (cross c1 c2 p <= 0 /\ cross c2 c3 p <= 0) -> r = 1%Z)) /\
+  (cross c1 c2 c3 == 0 -> r = sgnQ (cross c1 c2 p)).
+
+(* b is strictly inside the cone spanned at a1 by the (left sides of the) edge lines a0a1 and a1a2 *)
+Definition strictly_in_cone (a0 a1 a2 b : pt) : Prop := 0 < cross a0 a1 b /\ 0 < cross a1 a2 b.
+
+(* the case tables in the comments of inValidRegion; r, s = side of b w.r.t. the edges a0a1, a1a2
+   ("out" = strictly right, "on" = on the line) *)
+Definition inValidRegion_meaning (ignoreRegions : bool) (a0 a1 a2 b : pt) (res : bool) : Prop :=
+  let r := cross a0 a1 b in let s := cross a1 a2 b in
+  (0 < cross a0 a1 a2 -> ignoreRegions = false -> (res = true <-> r <= 0 \/ s <= 0)) /\
+  (0 < cross a0 a1 a2 -> ignoreRegions = true -> (res = true <-> (r <= 0 /\ 0 <= s) \/ (0 <= r /\ s <= 0))) /\
+  (cross a0 a1 a2 <= 0 -> ignoreRegions = false -> (res = true <-> r <= 0 /\ s <= 0)) /\
+  (cross a0 a1 a2 <= 0 -> ignoreRegions = true -> res = false).
+
+(* ---- segmentShapeIntersect (C16 extension 5) *)
+(* e lies on the half-open shape edge (s1, s2]: at its end point s2 or strictly inside the edge *)
+Definition on_edge_halfopen (s1 s2 e : pt) : Prop := pt_eq s2 e \/ strictly_between s1 s2 e.
+(* the segment e1e2 touches the edge s1s2 with one of its end points while its other end point is off the edge line *)
+Definition touches_edge (e1 e2 s1 s2 : pt) : Prop :=
+  (on_edge_halfopen s1 s2 e1 /\ ~ cross s1 s2 e2 == 0) \/ (on_edge_halfopen s1 s2 e2 /\ ~ cross s1 s2 e1 == 0).
+(* result (blocked, new flag) of one call with flag value `seen`: a proper crossing blocks; a touch is allowed
+   once (it sets the flag) and blocks when the flag is already set; anything else leaves the flag alone *)
+Definition segmentShapeIntersect_meaning (e1 e2 s1 s2 : pt) (seen : bool) (r : bool * bool) : Prop :=
+  (properly_cross e1 e2 s1 s2 -> r = (true, seen)) /\
+  (~ properly_cross e1 e2 s1 s2 -> touches_edge e1 e2 s1 s2 -> r = (seen, true)) /\
+  (~ properly_cross e1 e2 s1 s2 -> ~ touches_edge e1 e2 s1 s2 -> r = (false, seen)).
+
+(* ---- manhattanDist / projection (C16 extension 7) *)
+(* p is the foot of the perpendicular from b onto the line through a and c *)
+Definition is_foot (a c b p : pt) : Prop :=
+  on_line a c p /\ (px b - px p) * (px c - px a) + (py b - py p) * (py c - py a) == 0.
+
+(* ---- inPolyGen (C16 extension 6) *)
+(* q lies in the closed triangle ABC (either orientation of the vertex order; ABC not collinear) *)
+Definition in_closed_triangle (A B C q : pt) : Prop :=
+  (0 < cross A B C /\ 0 <= cross A B q /\ 0 <= cross B C q /\ 0 <= cross C A q) \/
+  (cross A B C < 0 /\ cross A B q <= 0 /\ cross B C q <= 0 /\ cross C A q <= 0).
+(* q lies in the closed axis-parallel rectangle [x0,x1] x [y0,y1] *)
+Definition in_closed_rect (x0 x1 y0 y1 : Q) (q : pt) : Prop :=
+  x0 <= px q /\ px q <= x1 /\ y0 <= py q /\ py q <= y1.
